@@ -217,7 +217,11 @@ def assign_case(topics, parts, subs, *, enum, kinds=KINDS, ud=None, gen=None, ta
         if states is not None:
             for m in [x for x in states if x not in subs]:
                 del states[m]                      # that member's process is gone
-        md = {m: member_metadata("sticky", subs[m], ud.get(m), gen if m in ud else None, states, m)
+        def g_of(m):
+            if m not in ud:
+                return None
+            return gen.get(m) if isinstance(gen, dict) else gen          # per-member generation (a returning member is behind)
+        md = {m: member_metadata("sticky", subs[m], ud.get(m), g_of(m), states, m)
               for m in subs}
         st, res = call_assign("sticky", parts, md)
         if st == "ok":
